@@ -298,6 +298,37 @@ class StereoCondensedReactionGraph(StereoMolGraph, CondensedReactionGraph):
 
         return relabeled_scrg
 
+    def subgraph(self, atoms: Iterable[AtomId]) -> Self:
+        """Returns a subgraph of the graph with the given atoms, the chiral
+        information and the changes of chiral information accordingly
+
+        :param atoms: Atoms to be used for the subgraph
+        :return: Subgraph
+        """
+        atoms = tuple(atoms)
+        new_graph = super().subgraph(atoms)
+
+        for change_dict in self._atom_stereo_change.values():
+            kept = {
+                change.value: stereo
+                for change, stereo in change_dict.items()
+                if stereo is not None
+                and all(a in atoms for a in stereo.atoms if a is not None)
+            }
+            if kept:
+                new_graph.set_atom_stereo_change(**kept)
+
+        for change_dict in self._bond_stereo_change.values():
+            kept = {
+                change.value: stereo
+                for change, stereo in change_dict.items()
+                if stereo is not None
+                and all(a in atoms for a in stereo.atoms if a is not None)
+            }
+            if kept:
+                new_graph.set_bond_stereo_change(**kept)
+        return new_graph
+
     def reactant(self, keep_attributes: bool = True) -> StereoMolGraph:
         """
         Returns the reactant of the reaction
